@@ -122,8 +122,8 @@ B(b) == IF b THEN 1 ELSE 0
 (***************************************************************************)
 (* OPEN_DIR (HandleOpenDir)                                                 *)
 (*  open fails        -> -1, previously open directory kept                 *)
-(*  opens, not a dir  -> -1, the handle replaces the directory; what a      *)
-(*                       later listing command then returns is unspecified  *)
+(*  opens, not a dir  -> -1, previously open directory kept (the object is  *)
+(*                       closed again: only directories can be listed)      *)
 (*  opens a directory -> 0, listing cursor at the start                     *)
 (* A virtual-image path opens (it is a file-like object), so it is case 2.  *)
 (***************************************************************************)
@@ -131,14 +131,11 @@ HandleOpenDir(cs, fsys, req) ==
   LET p == Norm(req.path)
       vk == VirtualKind(p)
       t == Resolve(fsys, VirtualTarget(p))
-  IN IF vk # "generic"
-     THEN IF IsDirAt(fsys, t)
-          THEN { Outcome([cs EXCEPT !.dir = [open |-> TRUE, path |-> t, pending |-> {}, undef |-> TRUE, viso |-> TRUE]], fsys, Res4(-1), FALSE),
-                 Outcome(cs, fsys, Res4(-1), FALSE) }   \* PS3 mode without PARAM.SFO: image creation fails
-          ELSE { Outcome(cs, fsys, Res4(-1), FALSE) }
+  IN \* only a directory becomes the open directory: a generated image (virtual prefix), a file, a missing path are
+     \* refused and leave the directory that was open before as it is
+     IF vk # "generic" THEN { Outcome(cs, fsys, Res4(-1), FALSE) }
      ELSE IF t = NoPath THEN { Outcome(cs, fsys, Res4(-1), FALSE) }
-     ELSE IF ~IsDirAt(fsys, t)
-          THEN { Outcome([cs EXCEPT !.dir = [open |-> TRUE, path |-> t, pending |-> {}, undef |-> TRUE, viso |-> FALSE]], fsys, Res4(-1), FALSE) }
+     ELSE IF ~IsDirAt(fsys, t) THEN { Outcome(cs, fsys, Res4(-1), FALSE) }
           ELSE { Outcome([cs EXCEPT !.dir = [open |-> TRUE, path |-> t,
                                              pending |-> { e.name : e \in Entries(fsys, t) }, undef |-> FALSE, viso |-> FALSE]],
                          fsys, Res4(0), FALSE) }
